@@ -26,7 +26,23 @@ def make_bad(r, src):
     base = strip_comments(src)
     toks = tokens(base)
     k = r.choice(['premature_end', 'premature_end', 'unbalanced_open', 'unbalanced_close', 'stray_token', 'illegal_char',
-                  'unterminated_string', 'reserved_word', 'truncated', 'opener'])
+                  'unterminated_string', 'reserved_word', 'truncated', 'opener', 'operator_newline'])
+    if k == 'operator_newline':
+        # a line break right after a binary operator OUTSIDE any bracket ends the statement too early (inside brackets
+        # it would be ignored): a syntax error, unless the lexer believes it is still inside a bracket
+        depth = 0
+        cands = []
+        for t in toks:
+            if t[2] in '([{':
+                depth += 1
+            elif t[2] in ')]}':
+                depth -= 1
+            elif depth == 0 and t[2] in ('+', '*', '/', '==', '!=', '<=', '>=', 'and', 'or', '**'):
+                cands.append(t)
+        if cands:
+            t = r.choice(cands)
+            return k, base[:t[1]] + r.choice(['\n', ' \n ', '\r\n']) + base[t[1]:]
+        return k, base.rstrip() + ' +\n2'
     if k == 'opener':
         # the text ends inside what other languages (or a future version of this one) would read as an open block
         # comment / long string: today a plain lexical or syntax error, and nothing of it may outlive the call
